@@ -3,10 +3,14 @@
 //
 // Each case builds a real route.GrafanaNet pointed at its own loopback HTTP
 // server. The server decodes every POST (snappy stream -> metrictank msg header
-// -> msgp MetricDataArray), answers from a per-request script
-// {2xx json / 2xx json with invalid>0 / 2xx garbage / 204 / 2xx truncated body,
-// 4xx, 5xx, hang past the client timeout, reset after reading, reset before
-// reading} and keeps an event log. Points carry (case, series, seq) in the name
+// -> msgp MetricDataArray), answers from a per-request script and keeps an event
+// log. A script entry is {status 200/201/202/204/400/401/403/404/413/429/500/
+// 502/503/504} x {body: json / json with invalid>0 / garbage / error page /
+// empty, optionally padded up to > 1 MiB} x {Content-Length / chunked /
+// delimited by close} x {complete / fewer bytes than declared then FIN or RST
+// (also right behind the headers) / silence in mid-body until the client's
+// timeout / trickling body}, or no response at all {hang past the client
+// timeout, reset after reading, reset before reading}. Points carry (case, series, seq) in the name
 // and (series, seq) in value and timestamp, so an acknowledged POST names the
 // hand-offs it contained. The monitors then ask:
 //   - is every accepted metric in a POST that was answered 2xx (bounded quiescence)?
@@ -20,6 +24,7 @@
 package main
 
 import (
+	"bufio"
 	"bytes"
 	"encoding/json"
 	"fmt"
@@ -51,25 +56,103 @@ import (
 
 // ---------------------------------------------------------------- outcomes
 
-type outcome int
+// What the scripted endpoint does with one request. Every field is drawn per
+// request from the seeded PRNG (see gen).
+type okind uint8
 
 const (
-	oOKJSON outcome = iota
-	oOKInvalid
-	oOKGarbage
-	oOKEmpty
-	oOKTrunc
-	o4xx
-	o5xx
-	oHang
-	oResetAfter
-	oResetBefore
+	kRespond     okind = iota // reads the request, sends a status line and headers, then (part of) a body
+	kHang                     // reads the request, sends nothing until the client gives up
+	kResetAfter               // reads the request, resets the connection without sending a byte
+	kResetBefore              // resets the connection without reading the request
 )
 
-var outcomeNames = []string{"ok-json", "ok-json-invalid", "ok-garbage", "ok-204", "ok-truncated", "4xx", "5xx", "hang", "reset-after-read", "reset-before-read"}
+type bodyKind uint8
 
-func (o outcome) String() string { return outcomeNames[o] }
-func (o outcome) ack() bool      { return o <= oOKTrunc }
+const (
+	bJSON bodyKind = iota
+	bJSONInvalid
+	bGarbage
+	bEmpty
+	bErrPage
+)
+
+var bodyNames = []string{"json", "json-invalid", "garbage", "empty", "errpage"}
+
+type framing uint8
+
+const (
+	fLength  framing = iota // Content-Length
+	fChunked                // Transfer-Encoding: chunked
+	fEOF                    // neither: the body ends where the connection is closed
+)
+
+var frameNames = []string{"length", "chunked", "eof"}
+
+type cutKind uint8
+
+const (
+	cNone     cutKind = iota // the complete body is sent
+	cShortFIN                // fewer bytes than declared (Content-Length / chunk size / no last chunk), then an orderly close
+	cShortRST                // the same, then a reset
+	cHangBody                // part of the body, then silence until the client gives up (its timeout)
+	cSlow                    // part of the body, the rest trickles in over ~0.4 x the client timeout
+)
+
+var cutNames = []string{"", "cut-fin", "cut-rst", "body-hang", "body-slow"}
+
+type outcome struct {
+	K      okind
+	Status int
+	Body   bodyKind
+	Pad    int // the body is padded to at least this many bytes (oversized error pages / replies)
+	Frame  framing
+	Cut    cutKind
+	Sent   int // per mille of the body sent before the cut (0 = cut right behind the headers)
+}
+
+func (o outcome) String() string {
+	switch o.K {
+	case kHang:
+		return "hang"
+	case kResetAfter:
+		return "reset-after-read"
+	case kResetBefore:
+		return "reset-before-read"
+	}
+	s := strconv.Itoa(o.Status) + "/" + bodyNames[o.Body]
+	if o.Pad > 0 {
+		s += "+pad" + strconv.Itoa(o.Pad)
+	}
+	s += "/" + frameNames[o.Frame]
+	if o.Cut != cNone {
+		s += "/" + cutNames[o.Cut] + "@" + strconv.Itoa(o.Sent/10) + "%"
+	}
+	return s
+}
+
+// class is the coarse kind used in counters and non-triviality signatures.
+func (o outcome) class() string {
+	if o.K != kRespond {
+		return o.String()
+	}
+	s := strconv.Itoa(o.Status/100) + "xx"
+	if o.Cut != cNone {
+		s += "-" + cutNames[o.Cut]
+	}
+	return s
+}
+
+// ack: the endpoint decoded the whole request and decided to send a 2xx status line. That is the acknowledgement,
+// whatever happens to the response body afterwards (see the assumptions in main).
+func (o outcome) ack() bool { return o.K == kRespond && o.Status >= 200 && o.Status < 300 }
+
+// bodyIncomplete: the client cannot read the response body to its declared end (slow bodies may or may not make it).
+func (o outcome) bodyIncomplete() bool {
+	return o.K == kRespond && (o.Cut == cShortFIN || o.Cut == cShortRST || o.Cut == cHangBody)
+}
+
+var okJSON = outcome{K: kRespond, Status: 200, Body: bJSON}
 
 const (
 	stallBound  = 2 * time.Second // normal Dispatch: microseconds; normal Shutdown on an idle endpoint: milliseconds
@@ -197,28 +280,91 @@ func gen(seed uint64, idx int) *ccase {
 		L = 90
 	}
 	pFail := r.PickInt([]int{30, 50, 70})
-	hangs, pre := 0, 0
+	caps := &scriptCaps{}
 	for i := 0; i < L; i++ {
-		var o outcome
-		if r.Intn(100) >= pFail {
-			o = outcome(r.PickInt([]int{0, 0, 0, 1, 2, 3, 4}))
-		} else {
-			o = outcome(r.PickInt([]int{int(o4xx), int(o4xx), int(o5xx), int(o5xx), int(oHang), int(oResetAfter), int(oResetAfter), int(oResetBefore)}))
-			if o == oHang {
-				if hangs++; hangs > 5 {
-					o = o5xx
-				}
-			}
-			if o == oResetBefore {
-				if pre++; pre > 3 {
-					o = oResetAfter
-				}
-			}
-		}
+		o := genOutcome(r, r.Intn(100) < pFail, caps)
 		c.script = append(c.script, o)
 		c.Script = append(c.Script, o.String())
 	}
 	return c
+}
+
+// scriptCaps bounds the costly entries of one script: every hang costs the case one client timeout, resets before
+// the request was read cannot be attributed to a batch (the streak cap does not see them), big bodies cost CPU.
+type scriptCaps struct{ hangs, slow, pre, big int }
+
+var (
+	okStatus   = []int{200, 200, 200, 200, 200, 201, 202, 204}
+	failStatus = []int{400, 401, 403, 404, 413, 429, 429, 500, 500, 502, 502, 503, 503, 504}
+	padSizes   = []int{299, 300, 301, 1000, 5000, 70000, 1<<20 + 17}
+)
+
+// genOutcome draws what the endpoint does with one request: a failure (non-2xx complete or with a body that cannot
+// be read to its end, hang, reset) or a success (2xx, again complete or not).
+func genOutcome(r *mon.Rng, fail bool, caps *scriptCaps) outcome {
+	o := outcome{K: kRespond}
+	if fail {
+		switch x := r.Intn(100); {
+		case x < 10:
+			o.K = kHang
+		case x < 28:
+			o.K = kResetAfter
+		case x < 34:
+			o.K = kResetBefore
+		}
+		if o.K == kHang {
+			if caps.hangs++; caps.hangs > 5 {
+				o.K = kRespond
+			}
+		}
+		if o.K == kResetBefore {
+			if caps.pre++; caps.pre > 3 {
+				o.K = kResetAfter
+			}
+		}
+		if o.K != kRespond {
+			return o
+		}
+		o.Status = r.PickInt(failStatus)
+		o.Body = bodyKind(r.PickInt([]int{int(bErrPage), int(bErrPage), int(bErrPage), int(bGarbage), int(bEmpty), int(bJSON)}))
+	} else {
+		o.Status = r.PickInt(okStatus)
+		o.Body = bodyKind(r.PickInt([]int{int(bJSON), int(bJSON), int(bJSON), int(bJSON), int(bJSONInvalid), int(bGarbage), int(bEmpty)}))
+	}
+	if o.Status == 204 { // no body, nothing to frame or cut
+		o.Body = bEmpty
+		return o
+	}
+	if r.Chance(1, 5) {
+		o.Pad = r.PickInt(padSizes)
+		if o.Pad > 1<<20 {
+			if caps.big++; caps.big > 2 {
+				o.Pad = 5000
+			}
+		}
+	}
+	o.Frame = framing(r.PickInt([]int{int(fLength), int(fLength), int(fLength), int(fChunked), int(fChunked), int(fEOF)}))
+	// how the body ends: failures lose their body more often than successes (an overloaded gateway or a proxy in
+	// front of it is what cuts error pages short)
+	pCut := 15
+	if fail {
+		pCut = 45
+	}
+	if o.Frame != fEOF && r.Intn(100) < pCut {
+		o.Cut = cutKind(r.PickInt([]int{int(cShortFIN), int(cShortFIN), int(cShortFIN), int(cShortRST), int(cShortRST), int(cHangBody), int(cSlow)}))
+		if o.Cut == cHangBody {
+			if caps.hangs++; caps.hangs > 5 {
+				o.Cut = cShortFIN
+			}
+		}
+		if o.Cut == cSlow {
+			if caps.slow++; caps.slow > 5 {
+				o.Cut = cShortRST
+			}
+		}
+		o.Sent = r.PickInt([]int{0, 0, 1, 100, 300, 500, 700, 900, 999})
+	}
+	return o
 }
 
 func (c *ccase) brief() string {
@@ -265,6 +411,10 @@ type server struct {
 	cfgPosts  int
 	badHeader int
 	corrupt   []string
+
+	hjMu sync.Mutex
+	hj   map[net.Conn]struct{} // hijacked connections still open (http.Server.Close does not know them)
+	down bool
 }
 
 func newServer(c *ccase) *server {
@@ -303,7 +453,213 @@ func (s *server) addr() string { return fmt.Sprintf("%s/k%d/metrics", s.base, s.
 func (s *server) close() {
 	close(s.stop)
 	s.hs.Close()
+	s.hjMu.Lock()
+	s.down = true
+	for c := range s.hj {
+		c.Close()
+	}
+	s.hj = nil
+	s.hjMu.Unlock()
 }
+
+// hijack takes the connection away from net/http so that the response can be written (and cut) byte by byte.
+func (s *server) hijack(w http.ResponseWriter) (net.Conn, *bufio.ReadWriter, bool) {
+	hj, ok := w.(http.Hijacker)
+	if !ok {
+		panic("c17: response writer cannot be hijacked")
+	}
+	conn, brw, err := hj.Hijack()
+	if err != nil {
+		return nil, nil, false
+	}
+	s.hjMu.Lock()
+	if s.down {
+		s.hjMu.Unlock()
+		conn.Close()
+		return nil, nil, false
+	}
+	if s.hj == nil {
+		s.hj = map[net.Conn]struct{}{}
+	}
+	s.hj[conn] = struct{}{}
+	s.hjMu.Unlock()
+	return conn, brw, true
+}
+
+func (s *server) drop(conn net.Conn, rst bool) {
+	if rst {
+		if tc, ok := conn.(*net.TCPConn); ok {
+			tc.SetLinger(0)
+		}
+	}
+	conn.Close()
+	s.hjMu.Lock()
+	delete(s.hj, conn)
+	s.hjMu.Unlock()
+}
+
+// waitPeerGone parks until the client closed its side (it gave up: client timeout), the case is over (close() closes
+// the connection) or the same generous bound the header-less hang uses has passed.
+func (s *server) waitPeerGone(conn net.Conn, brw *bufio.ReadWriter) {
+	conn.SetReadDeadline(time.Now().Add(time.Duration(s.c.TimeoutMs)*4*time.Millisecond + time.Second))
+	var b [1]byte
+	brw.Reader.Read(b[:])
+}
+
+// responseBody renders the body the script entry asks for.
+func responseBody(o outcome, npts int) []byte {
+	var b []byte
+	switch o.Body {
+	case bJSON:
+		b = []byte(fmt.Sprintf(`{"Invalid":0,"Published":%d,"ValidationErrors":{}}`, npts))
+	case bJSONInvalid:
+		if npts == 0 {
+			b = []byte(`{"Invalid":0,"Published":0,"ValidationErrors":{}}`)
+		} else {
+			b = []byte(fmt.Sprintf(`{"Invalid":1,"Published":%d,"ValidationErrors":{"invalid tag format":{"Count":1,"ExampleIds":[%d]}}}`, npts-1, npts-1))
+		}
+	case bGarbage:
+		b = []byte("<html>ok</html>")
+	case bErrPage:
+		b = []byte(fmt.Sprintf("<html><head><title>%d %s</title></head><body>scripted gateway failure</body></html>\n", o.Status, http.StatusText(o.Status)))
+	}
+	min := o.Pad
+	if o.Cut != cNone && min < 40 {
+		min = 40 // something to cut
+	}
+	if len(b) < min {
+		fill := byte(' ') // json stays json
+		if o.Body == bGarbage || o.Body == bErrPage {
+			fill = '.'
+		}
+		b = append(b, bytes.Repeat([]byte{fill}, min-len(b))...)
+	}
+	return b
+}
+
+// respond sends the scripted response. Complete Content-Length / chunked responses go through net/http (the
+// connection stays reusable); everything else is written raw on the hijacked connection.
+func (s *server) respond(w http.ResponseWriter, o outcome, npts int) {
+	body := responseBody(o, npts)
+	if o.Status == 204 {
+		w.WriteHeader(204)
+		return
+	}
+	ctype := "application/json"
+	if o.Body == bGarbage || o.Body == bErrPage {
+		ctype = "text/html"
+	}
+	if o.Cut == cNone && o.Frame != fEOF {
+		w.Header().Set("Content-Type", ctype)
+		if o.Frame == fLength {
+			w.Header().Set("Content-Length", strconv.Itoa(len(body)))
+			w.WriteHeader(o.Status)
+			w.Write(body)
+			return
+		}
+		w.WriteHeader(o.Status)
+		w.Write(body[:len(body)/2])
+		w.(http.Flusher).Flush() // no Content-Length + flush: net/http switches to chunked
+		w.Write(body[len(body)/2:])
+		return
+	}
+	conn, brw, ok := s.hijack(w)
+	if !ok {
+		return
+	}
+	rst := false
+	defer func() { s.drop(conn, rst) }()
+	conn.SetWriteDeadline(time.Now().Add(time.Duration(s.c.TimeoutMs)*4*time.Millisecond + time.Second))
+	fmt.Fprintf(brw, "HTTP/1.1 %d %s\r\nContent-Type: %s\r\n", o.Status, http.StatusText(o.Status), ctype)
+	switch o.Frame {
+	case fLength:
+		fmt.Fprintf(brw, "Content-Length: %d\r\n\r\n", len(body))
+	case fChunked:
+		fmt.Fprint(brw, "Transfer-Encoding: chunked\r\n\r\n")
+	case fEOF:
+		fmt.Fprint(brw, "Connection: close\r\n\r\n")
+	}
+	if o.Cut == cNone { // fEOF: the body ends with the connection
+		brw.Write(body)
+		brw.Flush()
+		return
+	}
+	k := len(body) * o.Sent / 1000
+	if k >= len(body) {
+		k = len(body) - 1
+	}
+	csz := len(body)/3 + 1 // chunk size
+	if csz > 4096 {
+		csz = 4096
+	}
+	// send writes body[from:to] in the declared framing; open = the last chunk is declared in full but sent in part
+	send := func(from, to int, open bool) {
+		if o.Frame == fLength {
+			brw.Write(body[from:to])
+			return
+		}
+		for from < to {
+			n := csz
+			if from+n > len(body) {
+				n = len(body) - from
+			}
+			if from+n > to {
+				if open {
+					fmt.Fprintf(brw, "%x\r\n", n)
+					brw.Write(body[from:to])
+					return
+				}
+				n = to - from
+			}
+			fmt.Fprintf(brw, "%x\r\n", n)
+			brw.Write(body[from : from+n])
+			fmt.Fprint(brw, "\r\n")
+			from += n
+		}
+	}
+	switch o.Cut {
+	case cShortFIN, cShortRST:
+		send(0, k, true)
+		brw.Flush()
+		rst = o.Cut == cShortRST
+	case cHangBody:
+		send(0, k, true)
+		brw.Flush()
+		s.waitPeerGone(conn, brw)
+		rst = true
+	case cSlow:
+		// whole chunks only here; whether the client sees the end before its timeout is up to the machine
+		step := (len(body)-k)/4 + 1
+		for from := 0; from < len(body); {
+			to := k
+			if from >= k {
+				to = from + step
+			}
+			if to > len(body) {
+				to = len(body)
+			}
+			if to > from {
+				send(from, to, false)
+			}
+			if brw.Flush() != nil {
+				return
+			}
+			from = to
+			if from < len(body) {
+				select {
+				case <-time.After(time.Duration(s.c.TimeoutMs) * time.Millisecond / 10):
+				case <-s.stop:
+					return
+				}
+			}
+		}
+		if o.Frame == fChunked {
+			fmt.Fprint(brw, "0\r\n\r\n")
+			brw.Flush()
+		}
+	}
+}
+
 
 func (s *server) idleFor() time.Duration {
 	if atomic.LoadInt32(&s.inflight) > 0 {
@@ -397,7 +753,7 @@ func (s *server) handleMetrics(w http.ResponseWriter, r *http.Request) {
 	s.mu.Lock()
 	n := s.arrivals
 	s.arrivals++
-	out := oOKJSON
+	out := okJSON
 	if n < len(s.c.script) {
 		out = s.c.script[n]
 	}
@@ -406,7 +762,7 @@ func (s *server) handleMetrics(w http.ResponseWriter, r *http.Request) {
 	if r.Header.Get("Content-Type") != "rt-metric-binary-snappy" || r.Header.Get("Authorization") != "Bearer "+apiKey || r.Method != "POST" {
 		s.badHeader++
 	}
-	if out == oResetBefore {
+	if out.K == kResetBefore {
 		s.ev++
 		rec.Ev = s.ev
 		atomic.AddInt64(&s.failed, 1)
@@ -434,7 +790,7 @@ func (s *server) handleMetrics(w http.ResponseWriter, r *http.Request) {
 	}
 	if !out.ack() && len(pts) > 0 {
 		if s.streak[pts[0]] >= maxStreak {
-			out, rec.Forced = oOKJSON, true
+			out, rec.Forced = okJSON, true
 		} else {
 			s.streak[pts[0]]++
 		}
@@ -457,33 +813,10 @@ func (s *server) handleMetrics(w http.ResponseWriter, r *http.Request) {
 	}
 	s.mu.Unlock()
 
-	switch out {
-	case oOKJSON:
-		w.WriteHeader(200)
-		fmt.Fprintf(w, `{"Invalid":0,"Published":%d,"ValidationErrors":{}}`, len(pts))
-	case oOKInvalid:
-		w.WriteHeader(200)
-		if len(pts) == 0 {
-			fmt.Fprint(w, `{"Invalid":0,"Published":0,"ValidationErrors":{}}`)
-		} else {
-			fmt.Fprintf(w, `{"Invalid":1,"Published":%d,"ValidationErrors":{"invalid tag format":{"Count":1,"ExampleIds":[%d]}}}`, len(pts)-1, len(pts)-1)
-		}
-	case oOKGarbage:
-		w.WriteHeader(200)
-		fmt.Fprint(w, "<html>ok</html>")
-	case oOKEmpty:
-		w.WriteHeader(204)
-	case oOKTrunc:
-		w.Header().Set("Content-Length", "64")
-		w.WriteHeader(200)
-		fmt.Fprint(w, `{"Invalid":0,"Pub`) // the server closes the connection: short body
-	case o4xx:
-		w.WriteHeader([]int{400, 401, 403, 404, 413, 429}[n%6])
-		fmt.Fprint(w, "rejected by the scripted gateway")
-	case o5xx:
-		w.WriteHeader([]int{500, 502, 503, 504}[n%4])
-		fmt.Fprint(w, "scripted gateway failure")
-	case oHang:
+	switch out.K {
+	case kRespond:
+		s.respond(w, out, len(pts))
+	case kHang:
 		t := time.NewTimer(time.Duration(s.c.TimeoutMs)*4*time.Millisecond + time.Second)
 		select {
 		case <-r.Context().Done(): // the client gave up (its timeout) and closed the connection
@@ -492,7 +825,7 @@ func (s *server) handleMetrics(w http.ResponseWriter, r *http.Request) {
 		}
 		t.Stop()
 		reset(w)
-	case oResetAfter:
+	case kResetAfter:
 		reset(w)
 	}
 }
@@ -989,16 +1322,18 @@ shutwait:
 	if exact || c.Blocking {
 		// every individual hand-off is attributable
 		if len(missing) > 0 {
-			ex := map[string]interface{}{"summary": sum, "unacknowledged_sample": ptsSample(missing, 30), "unacknowledged": len(missing)}
+			where, det := lastSeen(missing, evs)
+			ex := map[string]interface{}{"summary": sum, "unacknowledged_sample": ptsSample(missing, 30), "unacknowledged": len(missing), "unacknowledged_last_seen_in": det}
 			if c.Blocking {
-				viol("unacked", ex, "%d of %d metrics dispatched in blocking mode are in no POST answered 2xx after bounded quiescence (endpoint idle > %v; %s; queue_full counted %d)", len(missing), dispatched, idle, shutState, drops)
+				viol("unacked", ex, "%d of %d metrics dispatched (blocking) are in no POST answered 2xx; last POSTs carrying them: %s (bounded quiescence: endpoint idle > %v; %s; queue_full counted %d)", len(missing), dispatched, where, idle, shutState, drops)
 			} else {
-				viol("unacked", ex, "%d metrics were neither counted as queue_full during their Dispatch call nor contained in any POST answered 2xx after bounded quiescence (endpoint idle > %v; %s)", len(missing), idle, shutState)
+				viol("unacked", ex, "%d metrics neither counted as queue_full during their Dispatch call nor in any POST answered 2xx; last POSTs carrying them: %s (bounded quiescence: endpoint idle > %v; %s)", len(missing), where, idle, shutState)
 			}
 		}
 	} else if got := distinctFinal; got < accepted {
-		ex := map[string]interface{}{"summary": sum, "unacknowledged_sample": ptsSample(missing, 30)}
-		viol("unacked", ex, "%d dispatched, %d counted as queue_full, but only %d distinct metrics are in POSTs answered 2xx after bounded quiescence: %d accepted metrics unacknowledged or dropped uncounted (endpoint idle > %v; %s)", dispatched, drops, got, accepted-got, idle, shutState)
+		where, det := lastSeen(missing, evs)
+		ex := map[string]interface{}{"summary": sum, "unacknowledged_sample": ptsSample(missing, 30), "unacknowledged_last_seen_in": det}
+		viol("unacked", ex, "%d accepted metrics in no POST answered 2xx (or dropped uncounted); last POSTs carrying unacknowledged metrics: %s; %d dispatched, %d counted as queue_full, %d distinct acknowledged (bounded quiescence: endpoint idle > %v; %s)", accepted-got, where, dispatched, drops, got, idle, shutState)
 	} else if got > accepted {
 		viol("dropped-but-delivered", map[string]interface{}{"summary": sum}, "%d dispatched, %d counted as queue_full, yet %d distinct metrics were delivered: the drop counter moved for metrics that were not dropped", dispatched, drops, got)
 	}
@@ -1055,14 +1390,21 @@ shutwait:
 	}
 
 	// a failed batch must be acknowledged before any later point of one of its series is
-	retries, fails := 0, 0
+	retries, retriesCut, fails := 0, 0, 0
 	kinds := map[string]bool{}
+	lastFail := map[pt]*reqRec{} // first point of a batch -> its last failed attempt
+	for _, f := range evs {
+		if !f.Out.ack() && len(f.Pts) > 0 {
+			lastFail[f.Pts[0]] = f
+		}
+	}
+	skipReported := map[pt]bool{}
 	for _, f := range evs {
 		if f.Out.ack() {
 			continue
 		}
 		fails++
-		kinds[f.Out.String()] = true
+		kinds[f.Out.class()] = true
 		if len(f.Pts) == 0 {
 			continue
 		}
@@ -1097,17 +1439,49 @@ shutwait:
 		}
 		if allAcked {
 			retries++
+			if f.Out.bodyIncomplete() {
+				retriesCut++
+			}
 		}
-		if len(skipped) > 0 {
-			viol("batch-skipped", map[string]interface{}{"summary": sum, "failed_request": f.N, "failed_outcome": f.Out.String(), "skipped_sample": ptsSample(skipped, 20), "later_point": laterPt.String()},
-				"request %d (%d points, answered %s) failed; %d of its points were not acknowledged before the later point %s of the same series was", f.N, len(f.Pts), f.Out, len(skipped), laterPt)
+		if len(skipped) > 0 && !skipReported[f.Pts[0]] {
+			skipReported[f.Pts[0]] = true // one report per batch: its first failed attempt, and the last one (after which it was given up)
+			lastTry := ""
+			if l := lastFail[f.Pts[0]]; l != f {
+				lastTry = fmt.Sprintf("; last failed attempt of the batch: request %d answered %s", l.N, l.Out)
+			}
+			viol("batch-skipped", map[string]interface{}{"summary": sum, "failed_request": f.N, "failed_outcome": f.Out.String(), "last_failed_attempt": lastFail[f.Pts[0]].N, "last_failed_outcome": lastFail[f.Pts[0]].Out.String(),
+				"skipped_sample": ptsSample(skipped, 20), "later_point": laterPt.String()},
+				"request %d (%d points, answered %s%s) failed; %d of its points were not acknowledged before the later point %s of the same series was", f.N, len(f.Pts), f.Out, lastTry, len(skipped), laterPt)
 		}
 	}
 
 	// ---- evidence
 	nAck := 0
 	for _, r := range evs {
-		st.add("posts_"+r.Out.String(), 1)
+		st.add("posts_"+r.Out.class(), 1)
+		if r.Out.K == kRespond {
+			st.add("posts_status_"+strconv.Itoa(r.Out.Status), 1)
+			if r.Out.Frame == fChunked {
+				st.add("posts_answered_chunked", 1)
+			}
+			if r.Out.Pad >= 70000 {
+				st.add("posts_answered_oversized_body", 1)
+			}
+			if r.Out.Pad > 1<<20 {
+				if r.Out.ack() {
+					st.add("posts_2xx_body_over_1MiB", 1)
+				} else {
+					st.add("posts_non2xx_body_over_1MiB", 1)
+				}
+			}
+			if r.Out.bodyIncomplete() {
+				if r.Out.ack() {
+					st.add("posts_2xx_body_incomplete", 1)
+				} else {
+					st.add("posts_non2xx_body_incomplete", 1)
+				}
+			}
+		}
 		if r.Forced {
 			st.add("posts_forced_ok_by_streak_cap", 1)
 		}
@@ -1123,6 +1497,7 @@ shutwait:
 	st.add("posts_acknowledged", nAck)
 	st.add("posts_failed", fails)
 	st.add("failed_batches_later_acknowledged", retries)
+	st.add("non2xx_body_incomplete_later_acknowledged", retriesCut)
 	st.add("points_dispatched", dispatched)
 	st.add("points_counted_queue_full", drops)
 	st.add("points_acknowledged_distinct", distinctFinal)
@@ -1149,6 +1524,47 @@ shutwait:
 	}
 	res.Sample(map[string]interface{}{"case": c.brief(), "observed": sum, "failed_posts": fails, "failed_batches_later_acknowledged": retries,
 		"wall_ms": int(time.Since(started) / time.Millisecond), "first_requests": srv.logExcerpt(12)})
+}
+
+// lastSeen says in which requests the unacknowledged points were seen last: "request #7 answered 503/errpage/length/cut-fin@30%
+// (10 points)". Points that never reached the endpoint (dropped by the route, or still buffered) are summed up.
+func lastSeen(missing []pt, evs []*reqRec) (string, []string) {
+	miss := make(map[pt]bool, len(missing))
+	for _, p := range missing {
+		miss[p] = true
+	}
+	last := map[pt]*reqRec{}
+	for _, r := range evs { // event order: the last one wins
+		for _, p := range r.Pts {
+			if miss[p] {
+				last[p] = r
+			}
+		}
+	}
+	per := map[*reqRec]int{}
+	for _, r := range last {
+		per[r]++
+	}
+	rs := make([]*reqRec, 0, len(per))
+	for r := range per {
+		rs = append(rs, r)
+	}
+	sort.Slice(rs, func(i, j int) bool { return rs[i].Ev < rs[j].Ev })
+	var det []string
+	for _, r := range rs {
+		det = append(det, fmt.Sprintf("request #%d answered %s (%d/%d points)", r.N, r.Out, per[r], len(r.Pts)))
+	}
+	if n := len(missing) - len(last); n > 0 {
+		det = append(det, fmt.Sprintf("%d points in no POST at all", n))
+	}
+	short := det
+	if len(short) > 2 {
+		short = append(append([]string(nil), det[:2]...), fmt.Sprintf("... %d in all", len(det)))
+	}
+	if len(det) > 40 {
+		det = append(det[:40:40], fmt.Sprintf("... %d in all", len(det)))
+	}
+	return strings.Join(short, ", "), det
 }
 
 func ptsSample(ps []pt, n int) []string {
@@ -1179,7 +1595,7 @@ func (s *server) logExcerpt(n int) []string {
 		}
 		if len(r.Pts) > 0 {
 			l += fmt.Sprintf(" %d points %s..%s", len(r.Pts), r.Pts[0], r.Pts[len(r.Pts)-1])
-		} else if r.Out != oResetBefore {
+		} else if r.Out.K != kResetBefore {
 			l += " 0 points"
 		}
 		if r.Err != "" {
@@ -1199,8 +1615,8 @@ func main() {
 		log.SetLevel(log.WarnLevel)
 	}
 	res := mon.NewResult("C17")
-	res.Rule = "cases from (seed,index): concurrency 1-8, blocking on/off, bufSize small (0-30 per shard) or large, flushMaxNum 1-100, flushMaxWait 5-100ms, timeout 100-300ms, errBackoffMin 1ms, 1-50 series x 20-2000 points (clipped to a batch budget) from 1-4 dispatcher goroutines (one goroutine per series), paced or flat out; a per-request fault script (30-70% failures: 4xx, 5xx, hang past the client timeout, reset after / before reading; 2xx as json, json with invalid>0, garbage, 204, truncated) then healthy; Shutdown() called right after the last Dispatch, a few ms later, or after quiescence. non-trivial = at least one failed batch was observed being acknowledged later AND >= 2 kinds of failure were served; distinct = (concurrency, blocking, flushMaxNum, buffer class, failure kinds, drops counted, unacknowledged metrics pending at Shutdown, shutdown mode)"
-	res.Assume("a POST acknowledges exactly the points the harness server decoded from its body before answering 2xx (any 2xx, whatever the response body)")
+	res.Rule = "cases from (seed,index): concurrency 1-8, blocking on/off, bufSize small (0-30 per shard) or large, flushMaxNum 1-100, flushMaxWait 5-100ms, timeout 100-300ms, errBackoffMin 1ms, 1-50 series x 20-2000 points (clipped to a batch budget) from 1-4 dispatcher goroutines (one goroutine per series), paced or flat out; a per-request fault script (30-70% failures: 4xx/5xx (400 401 403 404 413 429 500 502 503 504) with error page / garbage / json / empty body padded up to 1 MiB+17, framed by Content-Length, chunked or connection close, sent completely or (45%) cut: fewer bytes than declared then FIN or RST, also right behind the headers, silence in mid-body until the client timeout, trickling body; hang without headers; reset after / before reading the request. successes: 200 201 202 204 as json, json with invalid>0, garbage, empty, same framings and (15%) the same cuts) then healthy; Shutdown() called right after the last Dispatch, a few ms later, or after quiescence. non-trivial = at least one failed batch was observed being acknowledged later AND >= 2 kinds of failure were served; distinct = (concurrency, blocking, flushMaxNum, buffer class, failure kinds, drops counted, unacknowledged metrics pending at Shutdown, shutdown mode)"
+	res.Assume("a POST acknowledges exactly the points the harness server decoded from its body before it sent a 2xx status line: the status line is the acknowledgement, whatever the response body says and whether or not the body arrives completely (the property speaks of acknowledged POSTs, the body of a tsdb-gw reply only reports counts, and the route reads it only for logging); a client that loses a 2xx status line to a reset may retry, which only adds duplicates. Anything else - non-2xx with a complete, cut, hanging or oversized body, no response - is a failure and the batch must come again")
 	res.Assume("'accepted' = Dispatch returned and the route's queue_full counter did not move for it (exact per call with a single dispatcher, by totals otherwise)")
 	res.Assume("bounded liveness: retry-until-acknowledged is judged after the fault script is exhausted (<= 6 decoded failures per batch) and the endpoint saw no request for 2s + 10x(flushMaxWait+timeout)")
 	res.Assume("the endpoint-idle clocks are extended by 3x the largest backoff the route may legitimately be sleeping in: 1ms x 1.5^k with k = scripted cap + the failures only the client saw (its flush error counter minus the failures the server dealt), all charged to one batch")
@@ -1276,6 +1692,9 @@ func main() {
 		res.Floor("posts_acknowledged", m["posts_acknowledged"], n)
 		res.Floor("posts_failed", m["posts_failed"], n)
 		res.Floor("failed_batches_later_acknowledged", m["failed_batches_later_acknowledged"], n/2)
+		res.Floor("posts_non2xx_body_incomplete", m["posts_non2xx_body_incomplete"], n/2)
+		res.Floor("non2xx_body_incomplete_later_acknowledged", m["non2xx_body_incomplete_later_acknowledged"], n/4)
+		res.Floor("posts_2xx_body_incomplete", m["posts_2xx_body_incomplete"], n/4)
 		res.Floor("shutdown_calls", m["shutdown_calls"], n*9/10)
 		res.Floor("cases_shutdown_with_unacked_pending", m["cases_shutdown_with_unacked_pending"], n/5)
 		res.Floor("cases_with_counted_drops", m["cases_with_counted_drops"], n/20)
